@@ -31,11 +31,12 @@ import (
 
 // Result is the verdict of one property evaluation.
 type Result struct {
-	Fail       string   // non-empty: the property is violated, oracle message
-	Skip       string   // non-empty: the case was discarded (counted per reason)
-	Classes    []string // class tags from the independent classifier
-	NonTrivial bool     // satisfies the property's stated non-triviality rule
-	Sub        int      // number of sub-evaluations performed (resumes, truncations...), 0 = 1
+	Fail       string         // non-empty: the property is violated, oracle message
+	Skip       string         // non-empty: the case was discarded (counted per reason)
+	Classes    []string       // class tags from the independent classifier
+	NonTrivial bool           // satisfies the property's stated non-triviality rule
+	Sub        int            // number of sub-evaluations performed (resumes, truncations...), 0 = 1
+	Extra      map[string]int // counters added to the evidence (observations that are reported, not judged)
 }
 
 func Failf(format string, a ...interface{}) Result {
@@ -212,6 +213,9 @@ func (e *Evidence) Record(spec interface{}, r Result) {
 		e.SubEvals += r.Sub
 	} else {
 		e.SubEvals++
+	}
+	for k, v := range r.Extra {
+		e.Extra[k] += v
 	}
 	seen := map[string]bool{}
 	for _, c := range r.Classes {
